@@ -85,4 +85,14 @@ CHECKS["C13"] = {
     "parts": [{"bin": "C13_thread_join"}],
 }
 
+CHECKS["C01"] = {
+    "registered": True,
+    "engine": "pmc-rt",
+    "technique": "stateless preemption-bounded exhaustive schedule enumeration of task trees on a live runtime (1-2 workers, all 8 scheduling policies) with an entry/exit ledger and a single-runner monitor",
+    "level_text": "Every schedule within the deviation bound of task-tree programs (root submitted from a non-pika thread, 2-3 children created by execute() or as detached pika::thread, two phases each from work / yield / boosted yield / suspend-until-event, two priorities) is executed on the real runtime under each of the 8 scheduling policies; each body must be entered and left exactly once, never be active on two workers, and a quiescent runtime with an unfinished task is reported as a dropped task.",
+    "level_note": "Sequentially consistent interleavings only; workers 1-2 (statement: 1..16); busy/idle loop limits set to 4 so that the direct-switch and idle paths occur within a few phases; quick tier: choice points at task state words and the rmw/cas sites of thread_data state transitions, set_thread_state and scheduling_loop; thorough tier adds whole thread_data and all queue bookkeeping sites for the default policy.",
+    "rule": "pmc-rt: task trees (data choices) x 8 policies x workers {1,2} x all schedules within the deviation bound",
+    "parts": [{"bin": "C01_tasks"}],
+}
+
 PENDING = {}
